@@ -408,3 +408,648 @@ def c16_programs(n_small=20, factor=50):
         for tag, b in variants:
             out.append((name + tag, text.format(N=n_small, B=b), text.format(N=n_small * factor, B=b)))
     return out
+
+
+# ---------------------------------------------------------------------------------------------
+# C07: seeded generator of extra programs (nested blocks / branches / patterns / closures /
+# tail calls over integers and small tuples).  Programs the compiler rejects simply do not count.
+# ---------------------------------------------------------------------------------------------
+class Gen:
+    def __init__(self, rng):
+        self.rng = rng
+        self.n = 0
+
+    def fresh(self, p="v"):
+        self.n += 1
+        return "%s%d" % (p, self.n)
+
+    def atom(self, vs):
+        if vs and self.rng.random() < 0.6:
+            return self.rng.choice(vs)
+        return str(self.rng.randint(0, 9))
+
+    def expr(self, d, vs):
+        """a chain of type 'int"""
+        r = self.rng
+        if d <= 0:
+            return self.atom(vs)
+        k = r.randint(0, 11)
+        if k == 0:
+            return self.atom(vs)
+        if k in (1, 2):
+            op = r.choice([ADD, SUB, "__integer_multiply__"])
+            return "[%s, %s] %s" % (self.expr(d - 1, vs), self.expr(d - 1, vs), op)
+        if k == 3:      # literal branches with a binding fallback
+            n = self.fresh("n")
+            arms = ["=%d => %s" % (i, self.expr(d - 1, vs)) for i in r.sample(range(6), r.randint(1, 3))]
+            arms.append("=%s => %s" % (n, self.expr(d - 1, vs + [n])))
+            return "%s { | %s }" % (self.expr(d - 1, vs), " | ".join(arms))
+        if k == 4:      # guard with fallback
+            return "%s { | [~, %d] %s =%d => %s | %s }" % (
+                self.expr(d - 1, vs), r.randint(0, 9), CMP, r.choice([-1, 0, 1]),
+                self.expr(d - 1, vs), self.expr(d - 1, vs))
+        if k == 5:      # destructuring inside a block
+            p, q = self.fresh("p"), self.fresh("q")
+            return "{ [%s, %s] =[%s, %s], %s }" % (self.expr(d - 1, vs), self.expr(d - 1, vs), p, q,
+                                                    self.expr(d - 1, vs + [p, q]))
+        if k == 6:      # closure capturing a local
+            c, f = self.fresh("c"), self.fresh("f")
+            return "{ %s = %s, %s = #'int { [~, %s] %s }, %s %s }" % (
+                c, self.expr(d - 1, vs), f, c, r.choice([ADD, SUB]), self.expr(d - 1, vs + [c]), f)
+        if k == 7:      # self tail call
+            g, n = self.fresh("g"), self.fresh("n")
+            return "{ %s = #'int { | =0 => %s | =%s => [%s, 1] %s ^ }, %d %s }" % (
+                g, self.expr(d - 1, vs), n, n, SUB, r.randint(0, 4), g)
+        if k == 8:      # named tuple patterns
+            x, y = self.fresh("x"), self.fresh("y")
+            return "P[%s, %s] { | =P[0, %s] => %s | =P[%s, %s] => %s }" % (
+                self.expr(d - 1, vs), self.expr(d - 1, vs), y, self.expr(d - 1, vs + [y]),
+                x, y, self.expr(d - 1, vs + [x, y]))
+        if k == 9:      # two-argument function with a tail call to an earlier function
+            h, g, a, b = self.fresh("h"), self.fresh("g"), self.fresh("a"), self.fresh("b")
+            return "{ %s = #'int { [~, %s] %s }, %s = #['int, 'int] { =[%s, %s] => %s ^%s }, [%s, %s] %s }" % (
+                g, self.atom(vs), ADD, h, a, b, self.expr(d - 1, vs + [a, b]), g,
+                self.expr(d - 1, vs), self.expr(d - 1, vs), h)
+        if k == 10:     # nested block shadowing, condition-consequence with a sequence
+            t = self.fresh("t")
+            return "{ %s = %s, %s { | =0 => { %s = 1, %s } | %s } }" % (
+                t, self.expr(d - 1, vs), t, t, self.expr(d - 1, vs + [t]), self.expr(d - 1, vs + [t]))
+        # alternation / type patterns
+        m = self.fresh("m")
+        return "%s { | =(1 | 2 | 3) => %s | =('int)%s => %s }" % (
+            self.expr(d - 1, vs), self.expr(d - 1, vs), m, self.expr(d - 1, vs + [m]))
+
+    def program(self):
+        vs, steps = [], []
+        for _ in range(self.rng.randint(0, 3)):
+            v = self.fresh("x")
+            steps.append("%s = %s" % (v, self.expr(self.rng.randint(1, 3), vs)))
+            vs.append(v)
+        steps.append(self.expr(self.rng.randint(2, 4), vs))
+        return ", ".join(steps)
+
+
+def corpus_generated(n, seed):
+    rng = random.Random(seed * 7919 + 13)
+    out = []
+    for i in range(n):
+        g = Gen(rng)
+        out.append({"id": "gen:%d:%d" % (seed, i), "lines": [g.program()], "source": "generated"})
+    return out
+
+
+# ---------------------------------------------------------------------------------------------
+# tools and TLC plumbing
+# ---------------------------------------------------------------------------------------------
+import threading
+
+
+def _run_tool_once(name, records, timeout):
+    inp = "".join(json.dumps(r) + "\n" for r in records)
+    p = common.run_bin(name, stdin=inp, timeout=timeout)
+    out = []
+    for line in p.stdout.splitlines():
+        if line.startswith("{"):
+            try:
+                out.append(json.loads(line))
+            except ValueError:
+                pass        # a line cut short by a dying process
+    return p.returncode, out, p.stderr
+
+
+def run_tool(name, records, timeout=1800):
+    """Run a harness tool over the records; a process that dies on one program (stack overflow,
+    abort) loses only that program: it is reported as crashed and the rest is resumed."""
+    out, crashed = [], []
+    rest = list(records)
+    while rest:
+        rc, got, err = _run_tool_once(name, rest, timeout)
+        out += got
+        if rc == 0:
+            break
+        seen = {json.dumps(g.get("id")) for g in got}
+        k = 0
+        while k < len(rest) and json.dumps(rest[k].get("id")) in seen:
+            k += 1
+        if k >= len(rest):
+            break
+        crashed.append({"id": rest[k].get("id"), "tool": name, "rc": rc, "stderr": err[-300:]})
+        rest = rest[k + 1:]
+    return out, crashed
+
+
+def run_tool_parallel(name, records, jobs=6, timeout=1800):
+    common.build_harness()
+    if not records:
+        return [], []
+    jobs = max(1, min(jobs, len(records)))
+    parts = [records[i::jobs] for i in range(jobs)]
+    res = [None] * jobs
+
+    def work(i):
+        try:
+            res[i] = run_tool(name, parts[i], timeout)
+        except Exception as e:          # re-raised below
+            res[i] = e
+    ts = [threading.Thread(target=work, args=(i,)) for i in range(jobs)]
+    for t in ts:
+        t.start()
+    for t in ts:
+        t.join()
+    out, crashed = [], []
+    for r in res:
+        if isinstance(r, Exception):
+            raise r
+        out += r[0]
+        crashed += r[1]
+    return out, crashed
+
+
+def enc_code(code):
+    return [[i["op"], i["a"]] + ([i["b"]] if "b" in i else []) for i in code]
+
+
+def to_tlc_image(j):
+    """bcdump record -> the compact image VMStack.tla reads (instructions as [op, a] tuples)."""
+    return {"id": j["id"], "line": j["line"], "form": j["form"], "nconst": j["nconst"], "arity": j["arity"],
+            "ntypes": j["ntypes"], "caps": j["caps"], "tids": j["tids"], "nbuiltins": j["nbuiltins"],
+            "entries": [{"fi": e["fi"], "l0": e["l0"], "keep": e["keep"]} for e in j["entries"]],
+            "fns": [enc_code(f["code"]) for f in j["fns"]]}
+
+
+def to_tlc_trace(r):
+    return {"id": r["id"], "end": r["end"], "err": r.get("err") or "", "steps": r["steps"],
+            "arity": r["arity"], "caps": r["caps"], "fis": [f["fi"] for f in r["fns"]],
+            "fns": [enc_code(f["code"]) for f in r["fns"]], "obs": r["obs"]}
+
+
+def _split(lines, n):
+    """n lists of serialised records, balanced by size (largest first)."""
+    n = max(1, min(n, len(lines)))
+    bins = [[0, []] for _ in range(n)]
+    for s in sorted(lines, key=len, reverse=True):
+        b = min(bins, key=lambda b: b[0])
+        b[0] += len(s)
+        b[1].append(s)
+    return [b[1] for b in bins if b[1]]
+
+
+def tlc_parallel(check, module, cfg, envvar, records, tag, procs=4, workers=4, timeout=3000, xmx="8g",
+                 label=None):
+    """Run TLC on the records, split over `procs` TLC processes (JSON loading is single-threaded in
+    TLC).  Returns the list of TlcResult; every run is added to the evidence."""
+    os.makedirs(WORKDIR, exist_ok=True)
+    lines = [json.dumps(r, separators=(",", ":")) for r in records]
+    parts = _split(lines, procs)
+    results = [None] * len(parts)
+
+    def work(i):
+        path = os.path.join(WORKDIR, "%s_%s_%d_%d.ndjson" % (module, tag, os.getpid(), i))
+        with open(path, "w") as f:
+            for s in parts[i]:
+                f.write(s + "\n")
+        try:
+            results[i] = common.tlc(module, cfg, env={envvar: path}, workers=workers, timeout=timeout,
+                                    extra=["-continue"], xmx=xmx,
+                                    metadir=os.path.join(common.WORK, "tlc_%s_%s_%d_%d" % (module, tag, os.getpid(), i)))
+        except Exception as e:
+            results[i] = e
+        finally:
+            if not os.environ.get("VMSTACK_KEEP"):
+                try:
+                    os.remove(path)
+                except OSError:
+                    pass
+    ts = [threading.Thread(target=work, args=(i,)) for i in range(len(parts))]
+    for t in ts:
+        t.start()
+    for t in ts:
+        t.join()
+    out = []
+    for i, r in enumerate(results):
+        if isinstance(r, Exception):
+            raise r
+        check.add_tlc(label or module, r)
+        if r.eval_error or (r.rc != 0 and not r.violated):
+            sys.stderr.write("\n".join(l for l in r.out.splitlines() if not l.startswith('<<"STAT"'))[-3000:] + "\n")
+            raise common.ToolError("%s could not evaluate its input (%s part %d)" % (module, tag, i))
+        out.append((r, [json.loads(s) for s in parts[i]]))
+    return out
+
+
+def prints_of(res, kind):
+    prefix = '<<"%s", ' % kind
+    out = []
+    for p in res.prints:
+        if p.startswith(prefix):
+            out.append(json.loads(json.loads(p[len(prefix):-2])))
+    return out
+
+
+_STAT = re.compile(r'^<<"STAT", (\d+), (\d+), (\d+), (\d+), (\d+), (\d+)>>$', re.M)
+
+
+def vmstack_check(check, images, tag, procs=4, workers=4):
+    """TLC VMStack over bcdump images.  Returns (violations, stats)."""
+    stats = {"items": 0, "steps": 0, "join_arrivals": 0, "joins_with_different_local_counts": 0,
+             "tailcall_sites": 0, "images": len(images)}
+    viols = []
+    if not images:
+        return viols, stats
+    runs = tlc_parallel(check, "VMStack", "MC_VMStack.cfg", "VMSTACK_IN", [to_tlc_image(j) for j in images],
+                        tag, procs=procs, workers=workers, label="VMStack(work-list fixpoint per function)")
+    for res, part in runs:
+        vs = prints_of(res, "VIOL")
+        for m in _STAT.finditer(res.out):
+            stats["items"] += 1
+            stats["steps"] += int(m.group(3))
+            stats["join_arrivals"] += int(m.group(4))
+            stats["joins_with_different_local_counts"] += int(m.group(5))
+            stats["tailcall_sites"] += int(m.group(6))
+        stats["items"] += len(vs)
+        if bool(vs) != bool(res.violated):
+            sys.stderr.write(res.out[-2000:])
+            raise common.ToolError("VMStack: invariant violations and VIOL lines disagree")
+        for v in vs:
+            v["invariant"] = RULES.get(v["rule"], "?")
+            viols.append(v)
+    return viols, stats
+
+
+def vmtrace_check(check, traces, tag, procs=4, workers=4):
+    """TLC VMTrace over vmtrace records.  Returns (runtime violations, drifts, observations)."""
+    recs = [to_tlc_trace(r) for r in traces if r.get("status") == "ok" and r.get("obs")]
+    nobs = sum(len(r["obs"]) for r in recs)
+    if not recs:
+        return [], [], 0
+    runs = tlc_parallel(check, "VMTrace", "VMTrace.cfg", "VMTRACE_IN", recs, tag, procs=procs, workers=workers,
+                        label="VMTrace(real VM steps against the stack effects)")
+    viols, drifts = [], []
+    for res, part in runs:
+        viols += prints_of(res, "VIOL")
+        drifts += prints_of(res, "DRIFT")
+        want = ("RuntimeWellFormed" in res.violated, "NoDrift" in res.violated)
+        if want != (bool(prints_of(res, "VIOL")), bool(prints_of(res, "DRIFT"))):
+            sys.stderr.write(res.out[-2000:])
+            raise common.ToolError("VMTrace: invariant violations and printed lines disagree")
+    return viols, drifts, nobs
+
+
+# ---------------------------------------------------------------------------------------------
+# the pipeline
+# ---------------------------------------------------------------------------------------------
+def tool_record(p, **extra):
+    """corpus entry -> input record of bcdump / vmtrace"""
+    r = {"id": p["id"], "lines": p["lines"]}
+    for k in ("modules", "io"):
+        if k in p:
+            r[k] = p[k]
+    r.update(extra)
+    return r
+
+
+def fn_hash(code):
+    return hashlib.sha1(json.dumps(code, separators=(",", ":")).encode()).hexdigest()[:16]
+
+
+NONTRIVIAL_OPS = {"JumpIf", "Call", "TailCall", "Spawn", "Select", "Send"}
+
+
+def pipeline(check, programs, tag, group_size=25, trace_keep=3000, trace_max=200000, jobs=6,
+             merged=True, tlc_procs=4, tlc_workers=4, static_only=False):
+    """Everything C07 does to a list of corpus entries.  Returns a dict with the violations
+    (each with the input needed to replay it) and the measurements."""
+    by_id = {p["id"]: p for p in programs}
+    t0 = time.time()
+    # 1. the real compiler: forms compiled / shaken / shaken_fn
+    dumps, crashed = run_tool_parallel("bcdump", [tool_record(p) for p in programs], jobs=jobs)
+    # 2. merged form: groups of programs evaluated by the real REPL against one environment
+    groups = []
+    if merged:
+        order = list(programs)
+        random.Random(common.seed()).shuffle(order)
+        for i in range(0, len(order), group_size):
+            groups.append({"id": "merged:%s:%d" % (tag, i // group_size),
+                           "group": [tool_record(p) for p in order[i:i + group_size]]})
+        gd, gc = run_tool_parallel("bcdump", groups, jobs=jobs)
+        dumps += gd
+        crashed += gc
+    group_by_id = {g["id"]: g for g in groups}
+    t_dump = time.time() - t0
+    images = [d for d in dumps if d.get("status") == "ok"]
+    m = {"programs": len(programs), "per_source": {}, "per_form": {}, "rejected": 0, "nocode": 0,
+         "compiler_panics": [], "tool_crashes": crashed, "bcdump_s": round(t_dump, 1)}
+    status_by_id = {}
+    for d in dumps:
+        if d["form"] == "-" or d.get("status") != "ok":
+            if d.get("status") == "rejected":
+                m["rejected"] += 1
+            elif d.get("status") == "nocode":
+                m["nocode"] += 1
+            elif d.get("status") == "panic":
+                m["compiler_panics"].append({"id": d["id"], "form": d.get("form"), "msg": d.get("msg", "")[:200]})
+        if d.get("status") == "ok" and d["form"] == "compiled":
+            status_by_id[d["id"]] = "ok"
+    for p in programs:
+        s = m["per_source"].setdefault(p.get("source", "?"), {"programs": 0, "compiled": 0})
+        s["programs"] += 1
+        if status_by_id.get(p["id"]) == "ok":
+            s["compiled"] += 1
+    distinct, nontrivial = set(), set()
+    for d in images:
+        f = m["per_form"].setdefault(d["form"], {"images": 0, "functions": 0, "instructions": 0})
+        f["images"] += 1
+        f["functions"] += len(d["fns"])
+        for fn in d["fns"]:
+            f["instructions"] += len(fn["code"])
+            h = fn_hash(fn["code"])
+            distinct.add(h)
+            if any(i["op"] in NONTRIVIAL_OPS for i in fn["code"]):
+                nontrivial.add(h)
+    m["distinct_functions"] = len(distinct)
+    m["distinct_nontrivial"] = len(nontrivial)
+    # 3. TLC: the static analysis
+    t1 = time.time()
+    sviol, stats = vmstack_check(check, images, tag, procs=tlc_procs, workers=tlc_workers)
+    m["vmstack_s"] = round(time.time() - t1, 1)
+    m["static"] = stats
+    violations = []
+    for v in sviol:
+        src = group_by_id.get(v["id"]) or (tool_record(by_id[v["id"]]) if v["id"] in by_id else None)
+        violations.append({"kind": "static", "program": src, "form": v["form"], "line": v["line"],
+                           "function": v["fi"], "pc": v["pc"], "rule": v["rule"], "invariant": v["invariant"],
+                           "detail": {k: v[k] for k in ("h", "l", "x", "op", "l0")}})
+    # 4. the real VM, one instruction per step, and TLC: the binding
+    m["traces"] = {"run": 0, "validated": 0, "observations": 0, "ends": {}, "drift": 0}
+    drifts = []
+    if not static_only:
+        t2 = time.time()
+        runnable = [p for p in programs if status_by_id.get(p["id"]) == "ok"]
+        recs = []
+        for p in runnable:
+            recs.append(tool_record(p, keep=trace_keep, max_steps=trace_max))
+        # every 7th program also runs in its tree-shaken form
+        for k, p in enumerate(runnable):
+            if k % 7 == 0:
+                recs.append(tool_record(p, id=p["id"] + "#shaken", keep=trace_keep, max_steps=trace_max,
+                                        form="shaken"))
+        traces, tcrashed = run_tool_parallel("vmtrace", recs, jobs=jobs)
+        m["tool_crashes"] += tcrashed
+        m["vmtrace_s"] = round(time.time() - t2, 1)
+        t3 = time.time()
+        ok = [r for r in traces if r.get("status") == "ok"]
+        for r in ok:
+            e = r["end"] + (":" + r["err"] if r["end"] == "error" else "")
+            m["traces"]["ends"][e] = m["traces"]["ends"].get(e, 0) + 1
+        rviol, drifts, nobs = vmtrace_check(check, ok, tag, procs=tlc_procs, workers=tlc_workers)
+        m["vmtrace_tlc_s"] = round(time.time() - t3, 1)
+        m["traces"]["run"] = len(ok)
+        m["traces"]["validated"] = sum(1 for r in ok if len(r.get("obs", [])) >= 2)
+        m["traces"]["observations"] = nobs
+        m["traces"]["drift"] = len(drifts)
+        for v in rviol:
+            pid = v["id"][:-len("#shaken")] if str(v["id"]).endswith("#shaken") else v["id"]
+            violations.append({"kind": "runtime", "program": tool_record(by_id[pid]) if pid in by_id else None,
+                               "form": "shaken" if str(v["id"]).endswith("#shaken") else "compiled",
+                               "line": 1, "function": None, "pc": None, "rule": "runtime_error:" + v["err"],
+                               "invariant": "RuntimeWellFormed", "detail": {"steps": v["steps"]}})
+    return {"violations": violations, "drifts": drifts, "m": m, "images": images}
+
+
+RULE_C07 = ("For every function of every bytecode image the real compiler produces (forms: as compiled, "
+            "tree-shaken from the wrapper entry, tree-shaken from the program's function value as `quiv "
+            "compile` does, merged into a running environment by the real REPL), TLC runs the abstract "
+            "machine of VMStack.tla (stack effects of VMSem.tla = DESIGN.md Appendix D, re-read against "
+            "executor.rs) to a fixpoint over all control-flow paths; invariants: NoUnderflow, JumpsInside, "
+            "IndicesInRange (constant/tuple/type/function/builtin indices, function type ids, Rotate/Equal "
+            "operands), LoadsDefined (Load(i) with i < locals defined on ALL paths; only definedness is "
+            "judged, the count may differ at joins), ResetInRange, JoinHeightsAgree, ExitHeightOne, "
+            "TailCallHeights.  Binding: VMTrace.tla replays per-instruction traces of the real executor "
+            "(sync path, step(1)) against the same stack effects (a mismatch is model_drift) and a run "
+            "ending in StackUnderflow/VariableUndefined/FunctionUndefined/ConstantUndefined/FrameUnderflow "
+            "violates RuntimeWellFormed.")
+
+RULE_C16 = ("Static: in every function of every tail-recursive shape, VMStack.tla's TailCallHeights holds "
+            "(TailCall(true) at relative height exactly 1, TailCall(false) at exactly 2: no operand "
+            "survives an iteration) together with all C07 clauses.  Dynamic: each shape runs on the real "
+            "VM one instruction per step at N = 20 and 50 N = 1000; VMTrace.tla validates the steps "
+            "(TailCall keeps the frame count and bases, cuts the locals back to base + captures); "
+            "VMPeaks.tla requires equal peak frames / locals / stack at N and 50 N, heap slots at 50 N "
+            "<= heap slots at N <= 8, and both runs to complete.")
+
+
+def describe(v):
+    prog = v.get("program") or {}
+    src = prog.get("lines") or [m.get("lines") for m in prog.get("group", [])][:1]
+    text = json.dumps(src)[:160]
+    return "%s: form=%s line=%s function=%s pc=%s rule=%s %s program=%s %s" % (
+        v["invariant"], v["form"], v.get("line"), v.get("function"), v.get("pc"), v["rule"],
+        json.dumps(v.get("detail", {})), prog.get("id"), text)
+
+
+def select_c07(tier):
+    tests, sites, unread, loose = corpus_tests()
+    fixed = corpus_std() + corpus_spec() + corpus_examples()
+    info = {"test_call_sites": sites, "test_call_sites_unread": unread, "test_sessions": len(tests),
+            "test_other_literals": len(loose)}
+    if tier == "thorough":
+        gen = corpus_generated(1500, common.seed())
+        return fixed + tests + loose + gen, info
+    rng = random.Random(common.seed())
+    k_tests = int(os.environ.get("VMSTACK_QUICK_TESTS", "330"))
+    k_loose = int(os.environ.get("VMSTACK_QUICK_LITERALS", "60"))
+    sample = rng.sample(tests, min(k_tests, len(tests))) + rng.sample(loose, min(k_loose, len(loose)))
+    # the tail-call tests are small and central to both properties: always in
+    chosen = {p["id"] for p in sample}
+    sample += [p for p in tests if p["id"].startswith("test:tail_calls.rs") and p["id"] not in chosen]
+    gen = corpus_generated(150, common.seed())
+    info["quick_sample"] = {"tests": k_tests, "literals": k_loose, "of_tests": len(tests), "of_literals": len(loose)}
+    return fixed + sample + gen, info
+
+
+def run_c07(tier):
+    check = common.Check("C07", tier)
+    check.cov["rule"] = RULE_C07
+    programs, info = select_c07(tier)
+    big = tier == "thorough"
+    r = pipeline(check, programs, "c07", trace_keep=20000 if big else 2500,
+                 trace_max=200000 if big else 60000, tlc_procs=4, tlc_workers=4)
+    m = r["m"]
+    check.cov["corpus"] = info
+    check.cov["counts"] = m
+    check.cov["evaluations"] = m["static"]["items"]
+    check.cov["distinct_nontrivial"] = m["distinct_nontrivial"]
+    check.cov["tailcall_sites_checked"] = m["static"]["tailcall_sites"]
+    check.cov["traces_validated_against_impl"] = m["traces"]["validated"]
+    check.cov["model_drift"] = m["traces"]["drift"]
+    check.cov["drift_samples"] = r["drifts"][:5]
+    for d in r["images"][:400:80]:
+        check.sample({"program": d["id"], "form": d["form"], "functions": len(d["fns"])})
+    check.sample({"program": "std:all", "note": "whole standard library via one import program"})
+    for d in r["drifts"][:5]:
+        print("  MODEL-DRIFT (not a violation): %s" % json.dumps(d)[:300])
+    for v in r["violations"]:
+        obj = dict(v, prop="C07")
+        check.violation(obj, name=v["kind"], key=None, what=describe(v))
+    print("C07 %s: %d programs (%s), %d images, %d functions analysed (%d distinct, %d nontrivial), "
+          "%d TailCall sites, %d real traces validated (%d observations), drift=%d, violations=%d"
+          % (tier, m["programs"], ", ".join("%s %d/%d" % (k, v["compiled"], v["programs"]) for k, v in sorted(m["per_source"].items())),
+             m["static"]["images"], m["static"]["items"], m["distinct_functions"], m["distinct_nontrivial"],
+             m["static"]["tailcall_sites"], m["traces"]["validated"], m["traces"]["observations"],
+             m["traces"]["drift"], len(r["violations"])))
+    return check.finish()
+
+
+def peaks_check(check, pairs, tag):
+    """pairs: [(id, small trace record, large trace record)] -> VIOL records of VMPeaks."""
+    recs = []
+    for tid, a, b in pairs:
+        def side(r, n):
+            return {"n": n, "end": r.get("end", r.get("status", "?")), "steps": r.get("steps", 0),
+                    "frames": r.get("peak", {}).get("frames", 0), "locals": r.get("peak", {}).get("locals", 0),
+                    "stack": r.get("peak", {}).get("stack", 0), "slots": r.get("heap", {}).get("slots", 0)}
+        recs.append({"id": tid, "small": side(a, 1), "large": side(b, 50)})
+    runs = tlc_parallel(check, "VMPeaks", "VMPeaks.cfg", "VMPEAKS_IN", recs, tag, procs=1, workers=4,
+                        label="VMPeaks(peaks at N vs 50N)")
+    out = []
+    for res, part in runs:
+        vs = prints_of(res, "VIOL")
+        if bool(vs) != bool(res.violated):
+            raise common.ToolError("VMPeaks: invariant violations and VIOL lines disagree")
+        out += vs
+    return out
+
+
+def c16_pipeline(check, shapes, tag, keep_large, static=True):
+    """shapes: [(id, source at N, source at 50N)].  Returns (violations, measurements, drifts)."""
+    m = {}
+    violations, drifts = [], []
+    progs = []
+    for tid, a, b in shapes:
+        progs.append({"id": tid + "@N", "lines": [a], "source": "c16"})
+        progs.append({"id": tid + "@50N", "lines": [b], "source": "c16"})
+    src_of = {tid: (a, b) for tid, a, b in shapes}
+    if static:
+        r = pipeline(check, progs, tag, group_size=23, static_only=True, tlc_procs=2, tlc_workers=6)
+        m["static"] = r["m"]
+        for v in r["violations"]:
+            violations.append(v)
+        compiled = r["m"]["per_source"].get("c16", {}).get("compiled", 0)
+        if compiled != len(progs):
+            raise common.ToolError("C16: %d of %d template instances were rejected by the compiler"
+                                   % (len(progs) - compiled, len(progs)))
+    # dynamic part
+    t0 = time.time()
+    recs = []
+    for tid, a, b in shapes:
+        recs.append({"id": tid + "@N", "lines": [a], "keep": 100000, "max_steps": 400000})
+        recs.append({"id": tid + "@50N", "lines": [b], "keep": keep_large, "max_steps": 3000000})
+    traces, crashed = run_tool_parallel("vmtrace", recs, jobs=8)
+    m["vmtrace_s"] = round(time.time() - t0, 1)
+    m["tool_crashes"] = crashed
+    by = {t["id"]: t for t in traces}
+    ok = [t for t in traces if t.get("status") == "ok"]
+    rviol, drifts, nobs = vmtrace_check(check, ok, tag, procs=4, workers=4)
+    m["observations"] = nobs
+    m["traces_validated"] = sum(1 for r in ok if len(r.get("obs", [])) >= 2)
+    for v in rviol:
+        tid = v["id"].rsplit("@", 1)[0]
+        violations.append({"kind": "runtime", "program": {"id": v["id"], "lines": [src_of[tid][0 if v["id"].endswith("@N") else 1]]},
+                           "form": "compiled", "line": 1, "function": None, "pc": None,
+                           "rule": "runtime_error:" + v["err"], "invariant": "RuntimeWellFormed",
+                           "detail": {"steps": v["steps"]}})
+    pairs = []
+    for tid, a, b in shapes:
+        pairs.append((tid, by.get(tid + "@N", {"status": "missing"}), by.get(tid + "@50N", {"status": "missing"})))
+    m["peaks"] = {tid: {"N": [x.get("peak"), x.get("heap"), x.get("steps")],
+                        "50N": [y.get("peak"), y.get("heap"), y.get("steps")]} for tid, x, y in pairs}
+    for v in peaks_check(check, pairs, tag):
+        a, b = src_of[v["id"]]
+        violations.append({"kind": "peaks", "program": {"id": v["id"], "lines": [a]}, "large": b,
+                           "form": "compiled", "line": 1, "function": None, "pc": None, "rule": v["rule"],
+                           "invariant": {"incomplete": "Completes", "frames_grow": "FramesConstant",
+                                         "locals_grow": "LocalsConstant", "stack_grows": "StackConstant",
+                                         "heap_grows": "HeapBounded"}.get(v["rule"], "?"),
+                           "detail": {"small": v["small"], "large": v["large"]}})
+    return violations, m, drifts
+
+
+def run_c16(tier):
+    check = common.Check("C16", tier)
+    check.cov["rule"] = RULE_C16
+    shapes = c16_programs()
+    extra = []
+    if tier == "thorough":
+        # the test-suite and std programs with tail calls: static clause only
+        tests, _, _, loose = corpus_tests()
+        extra = [p for p in tests + loose if "^" in " ".join(p["lines"])] + corpus_std()[:1]
+    violations, m, drifts = c16_pipeline(check, shapes, "c16", keep_large=200000 if tier == "thorough" else 3000)
+    if extra:
+        r = pipeline(check, extra, "c16x", static_only=True, tlc_procs=2, tlc_workers=6)
+        violations += [v for v in r["violations"] if v["rule"] == "tailcall_height"]
+        m["extra_static"] = r["m"]
+    st = m["static"]["static"]
+    check.cov["shapes"] = len(shapes)
+    check.cov["shape_ids"] = [s[0] for s in shapes]
+    check.cov["counts"] = {k: v for k, v in m.items() if k != "peaks"}
+    check.cov["peaks"] = m["peaks"]
+    check.cov["evaluations"] = st["items"] + (m.get("extra_static", {}).get("static", {}).get("items", 0))
+    check.cov["distinct_nontrivial"] = m["static"]["distinct_nontrivial"]
+    check.cov["tailcall_sites_checked"] = st["tailcall_sites"] + (m.get("extra_static", {}).get("static", {}).get("tailcall_sites", 0))
+    check.cov["traces_validated_against_impl"] = m["traces_validated"]
+    check.cov["model_drift"] = len(drifts)
+    check.cov["drift_samples"] = drifts[:5]
+    for s in shapes[:6]:
+        check.sample({"shape": s[0], "program_at_N": s[1]})
+    for d in drifts[:5]:
+        print("  MODEL-DRIFT (not a violation): %s" % json.dumps(d)[:300])
+    for v in violations:
+        check.violation(dict(v, prop="C16"), name=v["kind"], key=None, what=describe(v))
+    print("C16 %s: %d tail-recursive shapes x {N=20, 50N=1000}; %d functions analysed, %d TailCall sites at "
+          "their exact heights; %d real traces validated (%d observations), drift=%d; violations=%d"
+          % (tier, len(shapes), check.cov["evaluations"], check.cov["tailcall_sites_checked"],
+             m["traces_validated"], m["observations"], len(drifts), len(violations)))
+    return check.finish()
+
+
+def run(prop, tier):
+    if prop == "C07":
+        return run_c07(tier)
+    if prop == "C16":
+        return run_c16(tier)
+    raise common.ToolError("vmstack engine does not decide " + prop)
+
+
+def replay(prop, path):
+    """Re-run the stored program through the same pipeline: 1 + VIOLATION line if it still fails."""
+    obj = json.load(open(path))
+    check = common.Check(prop, "replay")
+    prog = obj.get("program") or {}
+    violations = []
+    if obj.get("kind") == "peaks":
+        violations, _, _ = c16_pipeline(check, [(prog["id"], prog["lines"][0], obj["large"])], "replay",
+                                        keep_large=3000, static=False)
+        violations = [v for v in violations if v["kind"] == "peaks"]
+    elif "image" in obj:
+        # a stored (possibly hand-edited) bytecode image: the static analysis alone
+        sviol, _ = vmstack_check(check, [obj["image"]], "replay", procs=1, workers=4)
+        violations = [{"kind": "static", "program": prog, "form": v["form"], "line": v["line"],
+                       "function": v["fi"], "pc": v["pc"], "rule": v["rule"], "invariant": v["invariant"],
+                       "detail": {k: v[k] for k in ("h", "l", "x", "op", "l0")}} for v in sviol]
+    elif "group" in prog:
+        gd, _ = run_tool_parallel("bcdump", [prog], jobs=1)
+        sviol, _ = vmstack_check(check, [d for d in gd if d.get("status") == "ok"], "replay", procs=1, workers=4)
+        violations = [{"kind": "static", "program": prog, "form": v["form"], "line": v["line"],
+                       "function": v["fi"], "pc": v["pc"], "rule": v["rule"], "invariant": v["invariant"],
+                       "detail": {k: v[k] for k in ("h", "l", "x", "op", "l0")}} for v in sviol]
+    else:
+        p = dict(prog, source="replay")
+        r = pipeline(check, [p], "replay", merged=True, jobs=1, tlc_procs=1, tlc_workers=4)
+        violations = r["violations"]
+    if violations:
+        for v in violations[:3]:
+            print("  " + describe(v))
+        print("VIOLATION property=%s replay=%s" % (prop, path))
+        return 1
+    print("replay: %s no longer violates %s" % (path, prop))
+    return 0
